@@ -198,7 +198,7 @@ def extract_echo(view: str, resp, marker: bytes) -> typing.Optional[bytes]:
 
 
 def search_equivalence(chk: Check, site: driver.Site, rng, ctx: str) -> None:
-    targets = [(b"/cgi.sh", b"SEARCH="), (b"/echo.pyg", b"PYG SEARCH=")]
+    targets = [(b"/cgi.sh", b"SEARCH="), (b"/echo.pyg", b"PYG SEARCH="), (b"/c#find 100%.sh", b"SEARCH=")]
     queries = list(QUERIES)
     for _ in range(12):
         n = rng.randrange(1, 12)
@@ -237,6 +237,26 @@ def search_equivalence(chk: Check, site: driver.Site, rng, ctx: str) -> None:
                     if seen[label] is None:
                         chk.witness("C06/search-target-failed:%s" % reqs.VIEWS[view][0],
                                     {"view": label, "selector": sel, "query": q, "reply_head": resp.data[:160], "log": resp.log[:3]})
+            # Gemini's own way to a search: the listing's /GEMINI-QUERY link -> status 10 prompt -> the answer appended
+            # as a query -> status 30 redirect -> the script
+            if q and b"\n" not in q:
+                base = b"gemini://" + reqs.HOST.encode() + b"/GEMINI-QUERY" + reqs.quote(sel).encode()
+                r1 = site.request(base + b"\r\n", tls=True)
+                r2 = site.request(base + b"?" + urllib.parse.quote(q).encode() + b"\r\n", tls=True)
+                flow = {"prompt": r1.data[:60], "redirect": r2.data[:200]}
+                m = re.match(rb"3\d (\S+)\r\n$", r2.data)
+                if not r1.data.startswith(b"10 ") or not m:
+                    chk.witness("C06/gemini-search-flow-broken", {"selector": sel, "query": q, "flow": flow})
+                else:
+                    target = m.group(1)
+                    if target.startswith(b"/"):
+                        target = b"gemini://" + reqs.HOST.encode() + target
+                    r3 = site.request(target + b"\r\n", tls=True)
+                    seen["gemini:prompt-and-redirect"] = extract_echo("gemini", r3, marker)
+                    chk.count("gemini_search_flows")
+                    if seen["gemini:prompt-and-redirect"] is None:
+                        chk.witness("C06/search-target-failed:gemini", {"view": "gemini:prompt-and-redirect", "selector": sel, "query": q,
+                                                                         "flow": dict(flow, final=r3.data[:160])})
             if None in seen.values():
                 continue
             bad = {v: e for v, e in seen.items() if e != q}
